@@ -25,7 +25,7 @@ TEXT = {
     },
     "C02": {
         "text": "Exploration, exhaustive for small bounds: every operation sequence (opens of each sealed message, registration, re-registration of the same/older announcement) up to depth 5-7 for windows 1..4 "
-                "is executed on real receiver stores (state copied at every tree node) and judged step by step by an executable window model; seeded random histories cover the default window of 100 with up to 300 messages and 1-3 interleaved senders with retries.",
+                "is executed on real receiver stores (state copied at every tree node) and judged step by step by an executable window model; seeded random histories cover the default window of 100 with up to 300 messages and 1-3 interleaved senders with retries; registrations made with a context that is cancelled before or during the call must leave either no registration or the whole window.",
         "note": "Outside the sufficient bound of the statement either outcome is accepted; without a CID a failing re-open is accepted (documented by the repository's own tests).",
         "technique": "runtime monitoring: executable reference model (ratchet window) checked online against exhaustive small and random large arrival histories",
     },
@@ -46,14 +46,14 @@ TEXT = {
     },
     "C10": {
         "text": "Fault enumeration: scripted and seeded random workloads are recorded fault-free on a logging datastore; every mutation (put, delete, atomic batch commit) of each recording is then taken as a crash point: "
-                "the prefix state is rebuilt, a new secret store restarted on it, and the acknowledged-effects oracle evaluated (opened stays openable, openable stays openable, no counter reuse after restart, same keys, workload continues without panic).",
+                "the prefix state is rebuilt, a new secret store restarted on it, and the acknowledged-effects oracle evaluated (opened stays openable, openable stays openable, no counter reuse after restart, same keys, workload continues without panic; envelopes sealed and handed out before the stop open on their author after restart).",
         "note": "Crash = loss of all mutations after the point, no torn single put, batches atomic (as the property states for badger). Workloads are sampled; crash points are complete per workload.",
         "technique": "fault injection by exhaustive crash-point enumeration over recorded mutation logs with an acknowledged-effects oracle",
     },
     "C11": {
         "text": "Exploration: thousands of random account pairs derive contact groups on both sides (cached, recomputed, after restart, on an imported sibling device, in varying order of first use) with a collision census over identifiers and secrets; "
                 "random multi-member groups check member/device key derivation across devices and restarts; export/import reproduction; a catalogue of refused imports (used store after each kind of first use, RSA/Secp256k1/ECDSA, truncated/garbage/equal keys; a refused import must neither change an existing key nor install an imported one); "
-                "concurrent first use of a fresh store with seeded delays around every datastore access (all callers must be handed the identity the store keeps).",
+                "concurrent first use of a fresh store with seeded delays around every datastore access (all callers must be handed the identity the store keeps); key blobs labelled as another key type around Ed25519-sized material; one key in two roles on one running store.",
         "note": "Independence is observed as absence of collisions over the sample, not proved. Swapped blobs are outside the statement.",
         "technique": "runtime monitoring: symmetry/independence/refusal oracle over random key material on real secret stores, concurrent first use under injected delays, fault injection by enumeration of single read failures",
     },
@@ -67,7 +67,7 @@ TEXT = {
     "C03": {
         "text": "Exploration: for every event type of the protocol table (read at run time) and three group types a forgery catalogue (wrong signer key of each kind, signer swapped after signing, every bit flip of the signature, seeded flips of payload and box, "
                 "missing signature, unknown types, other group's secret, member-device variants, malformed envelopes) is opened with the real openGroupEnvelope and appended to the live log of a victim replica; a marker event gives logical quiescence; "
-                "the monitor checks that no forged entry reaches subscribers and that the getter snapshot is unchanged, with the correctly signed event as positive control.",
+                "the monitor checks that no forged entry reaches subscribers and that the getter snapshot is unchanged, with the correctly signed event as positive control; forgeries include a signer field encoded twice and events naming the reading store's own device; state and listing are compared again after close/reopen.",
         "note": "Behaviour under the catalogued forgeries, not a proof of the signature scheme. A valid event that is dropped makes the run inconclusive (positive control), it is not reported as a violation of this property.",
         "technique": "runtime monitoring: forgery catalogue against real stores; event-bus and index-getter snapshot oracle at marker-defined quiescence",
     },
@@ -80,7 +80,7 @@ TEXT = {
     "C06": {
         "text": "Exploration: the real RequestUsingReaderWriter/ResponseUsingReaderWriter run against a scripted adversary that owns its own account: honest run, wrong target, 24 low-order/non-canonical X25519 encodings on either side alone and combined with cross-session replay of harvested proofs, "
                 "observer replay, reflection, a man in the middle applying bit flips/truncation/oversize/duplication/drop to every frame, foreign identity key types, negative acknowledge. The oracle tracks which private keys the peer held in the session. "
-                "A second unit drives contactRequestsManager.handleIncomingRequest on a byte pipe: after a real handshake as K the peer announces a contact (own key, other keys, malformed keys/seeds, oversize); the account log may only record K.",
+                "A second unit drives contactRequestsManager.handleIncomingRequest on a byte pipe: after a real handshake as K the peer announces a contact (own key, other keys, malformed keys/seeds, oversize); the account log may only record K. Honest handshakes also run 8 at a time in one process and over streams delivered in segments of 1/3/7 bytes.",
         "note": "Attacks outside the catalogue are outside the evidence; the outgoing side of the manager needs a libp2p stream to a dialled peer and is only exercised through the handshake functions.",
         "technique": "runtime monitoring: scripted adversary (incl. keyless relay) + authentication oracle ('reported key => private half held in this session, for a request addressed to this responder')",
     },
@@ -92,7 +92,7 @@ TEXT = {
     },
     "C13": {
         "text": "Exploration, exhaustive for the parameter cube: logs of 0..6 (12 in thorough) entries in the metadata and the message store, held by the writer, by replicas fed entry by entry, in one batch, in mixed batches and after reopening; for every log EVERY (since, until, reverse) "
-                "with bounds in {nil, each entry, unknown id} is listed through ListEvents and compared with the inclusive range of the causal order; the RPC layer (GroupMetadataList/GroupMessageList with until_now, parameter-consistency errors) is driven on a service instance.",
+                "with bounds in {nil, each entry, unknown id} is listed through ListEvents and compared with the inclusive range of the causal order; the RPC layer (GroupMetadataList/GroupMessageList with until_now, parameter-consistency errors) is driven on a service instance; a two-writer log with three forks merged in both directions is listed on four replicas fed differently.",
         "note": "Single-writer logs (causal order = write order) plus one forked two-writer log per store, where the reference is the full listing itself (equal on both replicas, consistent with causality) and every range must be a contiguous slice of it.",
         "technique": "runtime monitoring: reference range oracle over the complete (since, until, reverse) cube on real replicated logs",
     },
@@ -105,13 +105,13 @@ TEXT = {
     "C08": {
         "text": "Exploration of schedules and histories: a receiver device with an activated group context runs on sync-point-instrumented sources (message store, chain-key path of the group context, queues); prepared log entries of 1-3 senders are delivered by plans "
                 "(messages singly / batched, announcement before, between, after them, messages sealed before the announcement, a backlog larger than the key window, deliveries made while the group is being activated, early close); each plan runs un-perturbed, under jitter and under pair plans that suspend one of the store's own tasks at a sync point until another task passed one of its own; "
-                "quiescence is decided from hit counters and goroutine states; the oracle is conservation: delivered == arrived and decryptable, exactly once, right payload and sender, nothing decryptable parked, queue empty.",
+                "quiescence is decided from hit counters and goroutine states; the oracle is conservation: delivered == arrived and decryptable, exactly once, right payload and sender, nothing decryptable parked, queue empty. Delivery plans include bursts larger than the key window, a far-ahead message arriving alone first, entries written by another member that claim a sender's device and counter, one failing access of the receiver's key datastore while a message is opened, and a release asked for with a cancelled context; a pipeline that never settles with store tasks parked in the store's own lock is reported as a deadlock.",
         "note": "Pair forcing at the instrumented points plus jitter, not all interleavings. Per-sender message counts stay below the key window except in two backlog scenarios (receiver window 3, 9-message batch).",
         "technique": "runtime monitoring: forced interleavings via build-overlay sync points + conservation oracle at counter/goroutine-defined quiescence",
     },
     "C12": {
         "text": "Exploration: every single-bit flip, field removal, group-type substitution and cross-group field swap of random invitations, plus invitations forged from nothing but the public replication descriptor, is decoded, classified (protected part changed or not) and handed to the real GroupJoin on an account group; "
-                "the identity used after an honest join is compared with the account identity; replication descriptors of groups of all types are searched for the secret, tried against every metadata envelope, message header and payload of a session of the full group, and compared by access-controller and log address.",
+                "the identity used after an honest join is compared with the account identity; replication descriptors of groups of all types are searched for the secret, tried against every metadata envelope, message header and payload of a session of the full group, and compared by access-controller and log address - computed, and as carried by the stores a replication node really opens from the descriptor. Candidate invitations include other encodings of identifier, secret and signature and secrets signed with keys a forger can derive.",
         "note": "Manipulations of parts the statement does not protect (link key signature, extra fields) are run for no-panic only. A second unit enumerates datastore faults while the identity for a joined group is created: the account must never fall back to its account-level keys.",
         "technique": "runtime monitoring: accept/refuse oracle over an exhaustive single-bit and field manipulation catalogue; descriptor-opens-nothing oracle; fault injection (enumerated datastore faults) while a group identity is created",
     },
